@@ -441,12 +441,225 @@ func main() {
 	concurrentCalls(r, scratch, workerCopy, wb)
 	symlinkedExecutable(r, scratch, workerCopy, wb)
 	shortCallBesideLongOnes(r, scratch, workerCopy, wb)
+	oddExecutables(r, scratch, workerSrc, workerCopy, wb)
+	jsonStderrThatIsNoError(r, scratch, workerSrc, workerCopy, wb)
 	r.RequireAtLeast("calls-succeeded", 5)
 	r.RequireAtLeast("error-typing-checked", 20)
 	r.RequireAtLeast("big-output-cases", 2)
 	r.RequireAtLeast("cancellation-cases", 8)
 	killHolders(scratch)
 	r.Finish()
+}
+
+// hostCall runs one plugin call in a fresh host process (the static worker) and returns what it observed.
+func hostCall(r *lib.Run, workerSrc, dir string, hs hostSpec) (hostResult, bool) {
+	sj, _ := json.Marshal(hs)
+	specPath := filepath.Join(dir, fmt.Sprintf("host-%s-%d-%d.json", hs.Command, hs.DeadlineMS, hs.CancelMS))
+	os.WriteFile(specPath, sj, 0o644)
+	var res hostResult
+	for attempt := 0; attempt < 3; attempt++ {
+		cmd := exec.Command(workerSrc, "host", specPath)
+		outCh := make(chan []byte, 1)
+		go func() { o, _ := cmd.Output(); outCh <- o }()
+		select {
+		case out := <-outCh:
+			if json.Unmarshal(out, &res) == nil {
+				return res, true
+			}
+			r.Event("host-child-without-result-retried")
+		case <-time.After(180 * time.Second):
+			if cmd.Process != nil {
+				cmd.Process.Kill()
+			}
+			r.Event("watchdog-fired")
+			if hs.DeadlineMS+hs.CancelMS > 0 {
+				r.Violation(map[string]string{"kind": "no-bounded-return", "timing": "odd-executable", "ctx": "ends"},
+					fmt.Sprintf("%s on %s: the call had not returned 180 s after start although its context ended after 300 ms", hs.Command, hs.Path), nil)
+			} else {
+				r.Inconclusive("watchdog fired for " + hs.Path)
+			}
+			return res, false
+		}
+	}
+	r.Inconclusive("host child produced no result three times for " + hs.Path)
+	return res, false
+}
+
+// oddExecutables: the plugin file is not the usual well-formed binary. (a) Files that cannot be started at all (no
+// execute bit, empty, garbage, an interpreter that does not exist, text without an interpreter line): a failing process
+// that printed nothing - every command yields a TYPED error (executable-file or malformed), never a bare one and never
+// a success. (b) Wrapper scripts, with and without an interpreter line, around a plugin whose descendant holds the pipes
+// for 120 s: however the file gets started (or not), the call returns within the bound after its context ended.
+func oddExecutables(r *lib.Run, scratch, workerSrc, workerCopy string, wb []byte) {
+	commands := []string{"get-plugin-metadata", "describe-key", "generate-signature", "generate-envelope", "verify-signature"}
+	type shapeT struct {
+		name    string
+		content []byte
+		mode    os.FileMode
+	}
+	shapes := []shapeT{{"no-execute-bit", wb, 0o644}, {"no-execute-bit-for-anyone-but-group", wb, 0o010}, {"empty-file", nil, 0o755}, {"garbage", []byte("\x00\x01\x02 not an executable \xff\xfe"), 0o755},
+		{"interpreter-does-not-exist", []byte("#!/nonexistent/interpreter\necho hi\n"), 0o755}, {"text-without-interpreter-line", []byte("exit 3\n"), 0o755}}
+	type job struct {
+		shape shapeT
+		cmd   string
+	}
+	var jobs []job
+	for si, sh := range shapes {
+		for ci, c := range commands {
+			if r.Quick() && (si+ci)%2 == 1 && sh.name != "no-execute-bit" {
+				continue
+			}
+			jobs = append(jobs, job{sh, c})
+		}
+	}
+	lib.Parallel(len(jobs), 8, func(i int) {
+		j := jobs[i]
+		dir := filepath.Join(scratch, fmt.Sprintf("odd-%d", i))
+		os.MkdirAll(dir, 0o755)
+		defer os.RemoveAll(dir)
+		exe := filepath.Join(dir, "notation-scripted")
+		os.WriteFile(exe, j.shape.content, 0o644)
+		os.Chmod(exe, j.shape.mode)
+		bj, _ := json.Marshal(map[string]behavior{"*": {Stdout: `{"keyId":"k","keySpec":"EC-256"}`}})
+		os.WriteFile(exe+".behavior.json", bj, 0o644)
+		// (the host runs as root, for whom the execute bit of ANY class suffices: the group-only shape may start)
+		res, ok := hostCall(r, workerSrc, dir, hostSpec{Path: exe, Name: "scripted", Command: j.cmd})
+		if !ok {
+			return
+		}
+		r.Eval("odd-executable|" + j.shape.name + "|" + j.cmd)
+		r.Event("plugin-files-that-cannot-be-started")
+		sig := map[string]string{"kind": "untyped-error", "command": j.cmd, "reply": "none", "stderr": "empty", "timing": "cannot-start:" + j.shape.name, "ctx": "background"}
+		wit := map[string]any{"shape": j.shape.name, "mode": fmt.Sprintf("%o", j.shape.mode), "host_result": res}
+		if res.OK {
+			if j.shape.name == "no-execute-bit-for-anyone-but-group" || j.shape.name == "text-without-interpreter-line" {
+				return // started after all (root / a shell fallback): says nothing
+			}
+			sig["kind"] = "wrongful-success"
+			r.Violation(sig, fmt.Sprintf("%s on a plugin file that cannot be started (%s) succeeded", j.cmd, j.shape.name), wit)
+			return
+		}
+		r.Event("error-typing-checked")
+		if res.ErrType != "executable-file" && res.ErrType != "malformed" {
+			r.Violation(sig, fmt.Sprintf("%s on a plugin file that cannot be started (%s): a failing process that printed nothing must yield a typed executable/malformed-plugin error, got %s %q", j.cmd, j.shape.name, res.ErrType, res.ErrMsg), wit)
+		}
+	}, r.PanicViolation("harness"))
+
+	// (b) wrapper scripts
+	type wjob struct {
+		shebang bool
+		ctx     string
+		cmd     string
+		hold    bool
+	}
+	var wjobs []wjob
+	for i, sb := range []bool{true, false} {
+		for k, ctx := range []string{"deadline", "cancel"} {
+			wjobs = append(wjobs, wjob{sb, ctx, commands[(2*i+k)%len(commands)], true})
+		}
+		wjobs = append(wjobs, wjob{sb, "background", "describe-key", false})
+	}
+	lib.Parallel(len(wjobs), 8, func(i int) {
+		j := wjobs[i]
+		dir := filepath.Join(scratch, fmt.Sprintf("wrap-%d", i))
+		os.MkdirAll(dir, 0o755)
+		defer os.RemoveAll(dir)
+		exe := filepath.Join(dir, "notation-scripted")
+		body := "exec \"$0.bin\" \"$@\"\n"
+		if j.shebang {
+			body = "#!/bin/sh\n" + body
+		}
+		os.WriteFile(exe, []byte(body), 0o755)
+		if err := os.Link(workerCopy, exe+".bin"); err != nil {
+			os.WriteFile(exe+".bin", wb, 0o755)
+		}
+		b := behavior{Stdout: `{"keyId":"k","keySpec":"EC-256"}`}
+		if j.hold {
+			b.Child, b.ChildSleepMS, b.SleepMS = "hold", 120000, 120000
+		}
+		bj, _ := json.Marshal(map[string]behavior{"*": b})
+		os.WriteFile(exe+".bin.behavior.json", bj, 0o644)
+		hs := hostSpec{Path: exe, Name: "scripted", Command: j.cmd}
+		switch j.ctx {
+		case "deadline":
+			hs.DeadlineMS = 300
+		case "cancel":
+			hs.CancelMS = 300
+		}
+		res, ok := hostCall(r, workerSrc, dir, hs)
+		if !ok {
+			return
+		}
+		r.Eval(fmt.Sprintf("wrapper-script|shebang=%v|%s|%s|hold=%v", j.shebang, j.ctx, j.cmd, j.hold))
+		wit := map[string]any{"shebang": j.shebang, "ctx": j.ctx, "command": j.cmd, "host_result": res}
+		if !j.hold {
+			r.Event("wrapper-script-controls")
+			if j.shebang && !res.OK {
+				r.Violation(map[string]string{"kind": "control-failed", "timing": "wrapper-script"}, fmt.Sprintf("control: a #!/bin/sh wrapper around a well-behaved plugin failed: %s %s", res.ErrType, res.ErrMsg), wit)
+			}
+			if !res.OK && res.ErrType != "executable-file" && res.ErrType != "malformed" {
+				r.Violation(map[string]string{"kind": "untyped-error", "timing": "wrapper-script"}, fmt.Sprintf("a script without interpreter line failed with the untyped error %s %q", res.ErrType, res.ErrMsg), wit)
+			}
+			return
+		}
+		r.Event("cancellation-cases")
+		r.Event("wrapper-script-cancellation-cases")
+		if res.AfterCtxMS > maxAfterCtxMS {
+			r.Violation(map[string]string{"kind": "no-bounded-return", "timing": fmt.Sprintf("wrapper-script-shebang=%v", j.shebang), "ctx": j.ctx},
+				fmt.Sprintf("%s through a wrapper script (interpreter line: %v) whose plugin's child holds the pipes: the call returned %d ms after its context had ended (bound %d ms)", j.cmd, j.shebang, res.AfterCtxMS, maxAfterCtxMS), wit)
+		}
+		r.SetExtra(fmt.Sprintf("after_ctx_ms_wrapper_shebang=%v_%s", j.shebang, j.ctx), res.AfterCtxMS)
+	}, r.PanicViolation("harness"))
+	killHolders(scratch)
+}
+
+// jsonStderrThatIsNoError: a failing plugin whose stderr IS JSON - but not the structured error of the contract (a JSON
+// log line, an empty object, null, an array, a string, a number). It did not print a structured error, so the caller
+// gets a typed executable/malformed-plugin error - not a "request error" with an empty code.
+func jsonStderrThatIsNoError(r *lib.Run, scratch, workerSrc, workerCopy string, wb []byte) {
+	commands := []string{"get-plugin-metadata", "describe-key", "generate-signature", "generate-envelope", "verify-signature"}
+	texts := []string{`{"level":"error","msg":"key vault unreachable","ts":"2024-01-01T00:00:00Z"}`, `{}`, `null`, `[1,2,3]`, `"fatal: no such key"`, `42`, `{"error":"boom","code":500}`,
+		`{"ErrorCode":null,"ErrorMessage":null}`} // (a text with only SOME of the three members of the contract is not judged: whether that is "a structured error" is not stated)
+	type job struct {
+		text, cmd string
+		exit      int
+	}
+	var jobs []job
+	for ti, t := range texts {
+		for ci, c := range commands {
+			if r.Quick() && (ti+ci)%2 == 1 {
+				continue
+			}
+			jobs = append(jobs, job{t, c, []int{1, 2, 255}[(ti+ci)%3]})
+		}
+	}
+	lib.Parallel(len(jobs), 16, func(i int) {
+		j := jobs[i]
+		dir := filepath.Join(scratch, fmt.Sprintf("jsonerr-%d", i))
+		os.MkdirAll(dir, 0o755)
+		defer os.RemoveAll(dir)
+		exe := filepath.Join(dir, "notation-scripted")
+		if err := os.Link(workerCopy, exe); err != nil {
+			os.WriteFile(exe, wb, 0o755)
+		}
+		bj, _ := json.Marshal(map[string]behavior{"*": {Stderr: j.text, Exit: j.exit}})
+		os.WriteFile(exe+".behavior.json", bj, 0o644)
+		res, ok := hostCall(r, workerSrc, dir, hostSpec{Path: exe, Name: "scripted", Command: j.cmd})
+		if !ok {
+			return
+		}
+		r.Eval("json-stderr-no-error|" + j.text + "|" + j.cmd)
+		r.Event("error-typing-checked")
+		r.Event("failing-plugins-with-json-stderr-that-is-no-structured-error")
+		sig := map[string]string{"kind": "untyped-error", "command": j.cmd, "reply": "empty", "stderr": "json-but-no-structured-error", "timing": "immediate", "ctx": "background"}
+		wit := map[string]any{"stderr": j.text, "exit": j.exit, "host_result": res}
+		if res.OK {
+			sig["kind"] = "wrongful-success"
+			r.Violation(sig, fmt.Sprintf("%s succeeded although the plugin exited with status %d", j.cmd, j.exit), wit)
+		} else if res.ErrType != "malformed" && res.ErrType != "executable-file" {
+			r.Violation(sig, fmt.Sprintf("%s: the failing plugin printed %s on stderr - JSON, but not a structured error - and the call returned %s/%q %q instead of a typed malformed-plugin error", j.cmd, j.text, res.ErrType, res.ErrCode, res.ErrMsg), wit)
+		}
+	}, r.PanicViolation("harness"))
 }
 
 func describe(c caseT, failed, ctxEnds bool) string {
